@@ -142,10 +142,14 @@ class Gen:
         for k in range(n_out):
             if self.qubits:
                 size = gen_size_expr(rng, scope)
+            elif rng.random() < 0.08:
+                size = E.num(0)          # an empty register: a legitimate size (and, handed over natively, the integer 0)
             else:
                 size = gen_expr(rng, scope_l, 1) if scope_l else E.num(rng.randint(1, 4))
             ports.append({"name": f"out_{k}", "direction": "output", "size": size})
-        pool = [r for r in RES_POOL if not under_rep or r[1] == "additive"]
+        # under a repetition mostly additive resources (products under arithmetic / closed-form sequences involve gamma or are
+        # refused), but now and then a multiplicative one too
+        pool = [r for r in RES_POOL if not under_rep or r[1] == "additive" or (r[1] == "multiplicative" and rng.random() < 0.3)]
         if not self.allow_other:
             pool = [r for r in pool if r[1] in ("additive", "multiplicative")]
         resources = [{"name": n, "type": t, "value": gen_expr(rng, scope_l, 2)} for n, t in self.subset(pool, 1, 3)]
@@ -162,7 +166,7 @@ class Gen:
             # a resource that bears the name of one of the routine's own parameters (`depth` the parameter, `depth` the cost):
             # an unlinked parameter is promoted to `child.depth`, the very text that also names the child's resource
             resources.append({"name": params[0], "type": "additive", "value": gen_expr(rng, scope_l, 2)})
-        return {"name": name, "type": rng.choice([None, "leaf"]), "input_params": params, "local_variables": locals_,
+        return {"name": name, "type": rng.choice([None, "leaf", "leaf", ""]), "input_params": params, "local_variables": locals_,
                 "linked_params": [], "ports": ports, "resources": resources, "connections": [], "repetition": None,
                 "children": []}, n_out + n_through
 
@@ -182,7 +186,7 @@ class Gen:
                 if r < 0.5 and params:
                     size = E.sym(rng.choice(params))
                 elif r < 0.7:
-                    size = E.num(rng.randint(1, 6))
+                    size = E.num(rng.randint(0, 6))
                 elif r < 0.85 and avail_sizes:
                     s = rng.choice(avail_sizes)
                     size = E.sym(s)
@@ -295,7 +299,7 @@ class Gen:
             resources.append({"name": "local_ancillae", "type": "qubits", "value": gen_size_expr(rng, scope)})
         if self.qubits and rng.random() < 0.12 and not is_rep:
             resources.append({"name": "qubit_highwater", "type": "qubits", "value": gen_size_expr(rng, scope)})
-        node = {"name": name, "type": rng.choice([None, "comp"]), "input_params": params, "local_variables": locals_,
+        node = {"name": name, "type": rng.choice([None, "comp", "comp", ""]), "input_params": params, "local_variables": locals_,
                 "linked_params": linked_params, "ports": ports, "resources": resources, "connections": connections,
                 "repetition": repetition, "children": children}
         if rng.random() < self.p_shuffle:
@@ -711,7 +715,7 @@ def native_numbers(doc, as_float=False):
         if rep:
             rep["count"] = conv(rep["count"]) if not as_float else rep["count"]
             for k, v in list(rep["sequence"].items()):
-                if k != "type":
+                if k in ("multiplier", "initial_term", "difference", "ratio"):     # the fields the schema admits numbers for
                     rep["sequence"][k] = conv(v)
         for c in n.get("children", []):
             go(c)
